@@ -1,9 +1,13 @@
-(* C09 E3 runner.  ops: S R s r C, T<d> = send with Timeout(d), A = advance the harness clock by 200.
+(* C09 E3 runner.  ops: S R s r C, T<d> = send with Timeout(d), V<d> = recv with Timeout(d), A = advance the harness clock by 200.
    case:  E[x] <cap> | <script p0> | <script p1> | .. | <model schedule: one digit per entry = thread id>
-   output: <e3 schedule> res=..|.. blocked=.. q=.. closed=.. sw=.. rw=.. ssem=.. rsem=..   (format of harness/C09/e3_chan.cpp) *)
+   output: <e3 schedule> res=..|.. blocked=.. q=.. closed=.. sw=.. rw=.. ssem=.. rsem=..   (format of harness/C09/e3_chan.cpp)
+   case:  Ux | <script p0> | .. | <model schedule: one base-36 digit per entry e: thread e mod n, e / n = 1: its timer fires>
+   output: <e3 schedule> res=..|.. blocked=.. slot=<v|-1> closed=.. sw=.. rw=.. seq=.. scv=<p,..|-> rcv=<p,..|-> mtx=<p|->
+           (UNBUFFERED channel, coq/C09/C09_E3U.v, format of harness/C09/e3_uchan.cpp) *)
 let max64 = z_of_string "18446744073709551615"
 let parse_op w = match w.[0] with
   | 'T' -> OSend (z_of_string (String.sub w 1 (String.length w - 1)))   (* send with Timeout(d) *)
+  | 'V' -> ORecv (z_of_string (String.sub w 1 (String.length w - 1)))   (* recv with Timeout(d) *)
   | 'A' -> OYield                                                       (* clock participant: now += 200 *)
   | 'S' -> OSend max64 | 'R' -> ORecv max64 | 's' -> OTrySend | 'r' -> OTryRecv | 'C' -> OClose | _ -> failwith "op"
 let digit c = if c >= '0' && c <= '9' then Char.code c - 48 else 10 + Char.code c - 97
@@ -28,5 +32,38 @@ let () =
            Printf.printf "%s res=%s blocked=%s q=%d closed=%d sw=%s rw=%s ssem=%s rsem=%s\n"
              (if sched = "" then "-" else sched) res bl (int_of_nat r.r_q) (if r.r_closed then 1 else 0)
              (string_of_z r.r_sw) (string_of_z r.r_rw) (string_of_z r.r_ssem) (string_of_z r.r_rsem)
+       | [k] when k = "Ux" ->
+           let ps = List.map (fun s -> List.map parse_op (split_on ' ' s)) scripts in
+           let msl = List.map (fun c -> nat_of_int (digit c)) (List.init (String.length ms) (String.get ms)) in
+           let r = e3u_expand ps msl in
+           let dig t = let i = int_of_nat t in if i < 10 then String.make 1 (Char.chr (48 + i)) else String.make 1 (Char.chr (87 + i)) in
+           let sched = String.concat "" (List.map dig r.ur_sched) in
+           let res = String.concat "|" (List.map (fun l -> String.concat "," (List.map string_of_z l)) r.ur_res) in
+           let tl l = if l = [] then "-" else String.concat "," (List.map (fun t -> string_of_int (int_of_nat t)) l) in
+           Printf.printf "%s res=%s blocked=%s slot=%s closed=%d sw=%s rw=%s seq=%d scv=%s rcv=%s mtx=%s\n"
+             (if sched = "" then "-" else sched) res (tl r.ur_blocked) (string_of_z r.ur_slot) (if r.ur_closed then 1 else 0)
+             (string_of_z r.ur_sw) (string_of_z r.ur_rw) (int_of_nat r.ur_seq) (tl r.ur_scv) (tl r.ur_rcv)
+             (match r.ur_mtx with Some t -> string_of_int (int_of_nat t) | None -> "-")
+       | [k; d; lim] when k = "UxN" ->
+           (* enumeration: every model-level schedule of at most d entries in which EVERY entry is enabled (thread steps
+              and timer firings), i.e. every path of length <= d of the model's transition system from the initial state
+              (shorter only if nobody can move); at most lim words.  Output: ENUM w1 w2 .. *)
+           let ps = List.map (fun s -> List.map parse_op (split_on ' ' s)) scripts in
+           let n = List.length ps in
+           let nn = nat_of_int n in
+           let s0 = u_init (fun t -> nth t ps []) (z_of_string "0") in
+           let dig i = if i < 10 then String.make 1 (Char.chr (48 + i)) else String.make 1 (Char.chr (87 + i)) in
+           let out = Buffer.create 65536 and cnt = ref 0 and lim = int_of_string lim in
+           let rec go s d pref =
+             if !cnt >= lim then () else begin
+               let moves = List.filter_map (fun e ->
+                 match uentry nn s (nat_of_int (e mod n)) (nat_of_int (e / n)) with
+                 | Some (s', _) -> Some (e, s') | None -> None) (List.init (2 * n) (fun e -> e)) in
+               if d = 0 || moves = [] then begin
+                 Buffer.add_char out ' '; Buffer.add_string out (if pref = "" then "-" else pref); incr cnt end
+               else List.iter (fun (e, s') -> go s' (d - 1) (pref ^ dig e)) moves
+             end in
+           go s0 (int_of_string d) "";
+           print_endline ("ENUM" ^ Buffer.contents out)
        | _ -> print_endline "BADCASE")
     with _ -> print_endline "BADCASE")
